@@ -55,4 +55,14 @@ for pid in sorted(props):
             out.append(f"* `{os.path.basename(os.path.dirname(s))}` — needs: {m.get('needs_to_manifest', '')}. Reported by `{det.get('check_cmd', '')}` "
                        f"(exit {det.get('exit_code')}): {', '.join(lem) if lem else 'NOT reported'}.")
     out.append("")
-print("\n".join(out))
+text = "\n".join(out)
+if "--update" in sys.argv:
+    dp = os.path.join(HERE, "DESIGN.md")
+    d = open(dp).read()
+    a = d.index("<!-- BEGIN GENERATED")
+    a = d.index("\n", a) + 1
+    b = d.index("<!-- END GENERATED -->")
+    open(dp, "w").write(d[:a] + text + "\n" + d[b:])
+    print("DESIGN.md updated", file=sys.stderr)
+else:
+    print(text)
